@@ -39,7 +39,7 @@ func init() {
 		Rule: "the real async client (linger 0/1/5 ms, max 1/2/7/1000 requests per batch, values up to 60 KB so that the 128 KiB batch size splits) against a fake service with 1..6 shards whose answers are a function of the request alone; 2..8 caller goroutines issue 40..200 puts (unique value = operation id), deletes and gets, some answered UNEXPECTED_VERSION_ID / KEY_NOT_FOUND by design; faults per case: none, a retriable refusal (NodeIsNotLeader) of the k-th write or read request of one shard (for reads also after the first chunk of the answer is out), a non-retriable failure of it, per-shard delays; " +
 			"oracle: every returned channel yields exactly one result and is closed (none within the client's own request timeout + margin = violation), the result is the fake's answer to that very operation (version id, key, value, status), an operation that failed is one the fake never applied, one that succeeded was applied exactly once, and no operation fails unless a fault was injected on a write stream or a non-retriable one on a read (a refused read must be retried transparently); " +
 			"non-trivial = >= 1 request carried >= 2 operations and (if a fault was planned) it fired; distinct = (config, fault, batch-size profile)",
-		MinNontrivial:    func(tier string) int { return tierN(tier, 25, 800) },
+		MinNontrivial:    func(tier string) int { return tierN(tier, 15, 600) },
 		RequiredCounters: []string{"operations", "write_requests_seen", "read_requests_seen", "max:batch_size_seen", "faults_fired", "ops_failed_by_fault"},
 		CaseTimeoutS:     120,
 	})
